@@ -7,6 +7,12 @@ CHECKS = {
    tech="z3 BMC of the live transition tables against the documented automaton with recurrence-diameter unwinding assertion; real PandoraMachine executed on solver-enumerated words with EUF-stub steps, assertions on z3 terms",
    text="Table level: language equivalence of the live _transitions_check table with the documented automaton is decided by z3 over a symbolic word of length |Q|^2+1 and the unwinding assertion shows that bound is complete; check/run tables mirror each other. Execution level (bounded): every accepted word up to length 5 (quick) / 7 (thorough), each step kind at most twice, with suffix variants, filling and several (num_scales, scale_factor), plus the shortest illegal extensions, is pushed through the real check_conf / check_pipeline_section / pandora.run with stub steps: acceptance, MachineError on rejection, state/event reset, order and multiplicity of step effects per scale and side, identity of a second check/run, and histories where another pipeline was checked before on the same machine.",
    note="Step classes are EUF stubs (their parameter validity is C05); words longer than the executed bound are covered by the table-level result only; plugins out of scope. Trusted: z3, the transitions library (executed for real), my encoding of trigger semantics (validated against the library on all 11111 words of length <= 4, 111111 in thorough)."),
+ 'C06': dict(cat='other', ref='DESIGN.md §5 C06',
+   text="The real loop_refinement with the real Vfit / Quadratic refinement_method (numba kernels executed from their Python source, numba typing rules modelled) run symbolically on one pixel: D in 3..5 costs (any real |c| <= 4096 or NaN), any validity mask < 4096, winner index enumerated, incoming disparity on a sample or between samples (after a filter); every branch forks and each path is closed by z3 queries: shift <= 0.5/subpix, result equals the documented fit, coefficient never worse than the sample cost, stays inside the interval, bit 3 raised exactly for its causes and no other bit touched (covers repeated refinement via the arbitrary pre-mask), invalid pixels untouched, and totality (no exception, no division by zero, indices in bounds). Thorough adds a bit-precise float32/float64 harness for the stored shift bound.",
+   note="Quick tier decides the algebra over exact reals (reals-for-floats assumption: float rounding of the fit is outside it); the FP harness (thorough) bounds cost magnitudes to [2^-20, 2^20] or 0. One pixel at a time: pixel independence of the prange loop is C18's write-set obligation. The sample a valid pixel sits on is assumed to have a computable cost."),
+ 'C07': dict(cat='other', ref='DESIGN.md §5 C07',
+   text="The whole real CrossCheckingAccurate.disparity_checking (with allocate_confidence_map and mask_border) executed symbolically on one symbolic row of left/right disparities and masks (2-3 columns quick, 4 columns and wider intervals thorough), thresholds concrete and symbolic, second call on the same validator object, border offset and pre-existing confidence band variants. Data-dependent selections fork (4^cols paths, all explored); on each path z3 decides flags == statement oracle, never both bits, confidence value, disparities and right map untouched. Exact value domain: disparities are multiples of 1/64 (|d| <= 16, right map also NaN), where every float operation of the code is exact.",
+   note="One row at a time (the code processes rows independently in a Python loop); disparities restricted to the exact domain in the quick tier (arbitrary float32 only in the 1-column FP harness of the thorough tier); known finding KF-C07-outside-mismatch is blocked by its input-class predicate and reported, any other violation still raises."),
  'C08': dict(cat='other', ref='DESIGN.md §5 C08', engine='E3-automaton',
    tech="real PandoraMachine callbacks executed with EUF-stub steps and symbolic interval ends; z3 (EUF + LRA) decides equality of right products with the left products of the mirrored run",
    text="Structural symmetry of all step callbacks: for every legal pipeline word (bounded length, solver-enumerated) containing a validation step the real machine is run on (L,R,[a,b]) and on (R,L,[-b,-a]) with z3 Real interval ends and uninterpreted step functions; z3 proves right1 == left2 and left1 == right2 term-wise, right dataset empty without validation, left disparity unchanged by adding cross-checking. Catches swapped/forgotten arguments, wrong right interval, skipped or doubled right branch in any <step>_run.",
